@@ -104,6 +104,49 @@ Theorem C12_select_expr_clean : forall Q (E : env Q) sub, env_ok E sub ->
 Proof. exact select_expr_clean. Qed.
 Print Assumptions C12_select_expr_clean.
 
+(* ---- value tuples used as values (ValueTupleExpr, ValueOf case []interface{}, Unwrapped) ----
+   [ETuple items] evaluates its members left to right into [RTuple l]; a column member is read at once, every other
+   member keeps its wrapper.  ValueOf of the tuple is the array of the recursively unwrapped members
+   ([unwrapped]): literal and computed-number wrappers become the string / the number / NULL, a nested tuple
+   becomes the array of its own unwrapped members.  The three stage theorems above cover the form: [expr_ok]
+   treats the members as value positions, [raw_ok sc (RTuple l)] asks [raw_ok sc] of every member (at every
+   depth, see [C12_raw_ok_tuple]), and [C12_value_of_clean] includes the [RTuple] case. *)
+
+(* raw_ok of a tuple = raw_ok of every member (hence, recursively, at every depth) *)
+Theorem C12_raw_ok_tuple : forall sc l, raw_ok sc (RTuple l) <-> Forall (raw_ok sc) l.
+Proof. exact raw_ok_tuple_iff. Qed.
+Print Assumptions C12_raw_ok_tuple.
+
+(* Expr of a value tuple: a tuple with one member per item, none of them a column wrapper (any environment) *)
+Theorem C12_tuple_eval_shape : forall Q (E : env Q) cur items r,
+  eval E cur (ETuple items) = Ok r ->
+  exists l, r = RTuple l /\ List.length l = List.length items /\ Forall (fun x => forall p, x <> RCol p) l.
+Proof. intros Q E cur items r. exact (eval_tuple_shape E cur items r). Qed.
+Print Assumptions C12_tuple_eval_shape.
+
+(* ValueOf of a tuple: an array, member by member and in order the unwrapped member; no row is consulted *)
+Theorem C12_tuple_value : forall cur l,
+  value_of cur (RTuple l) = let! vs := mapM unwrapped l in Ok (VArr vs).
+Proof. exact value_of_tuple. Qed.
+Print Assumptions C12_tuple_value.
+
+Theorem C12_tuple_value_members : forall cur l v,
+  value_of cur (RTuple l) = Ok v ->
+  exists vs, v = VArr vs /\ Forall2 (fun r w => unwrapped r = Ok w) l vs.
+Proof. exact value_of_tuple_members. Qed.
+Print Assumptions C12_tuple_value_members.
+
+(* Unwrapped, one member (a nested tuple included): clean when the member is admissible *)
+Theorem C12_unwrapped_clean : forall sc r v, raw_ok sc r -> unwrapped r = Ok v -> clean v.
+Proof. exact unwrapped_clean. Qed.
+Print Assumptions C12_unwrapped_clean.
+
+(* (a) the value of a tuple whose members are admissible (their values are clean) is clean, at every depth *)
+Theorem C12_tuple_value_clean : forall sc cur l v,
+  Forall (raw_ok sc) l -> value_of cur (RTuple l) = Ok v -> clean v.
+Proof. exact tuple_value_clean. Qed.
+Print Assumptions C12_tuple_value_clean.
+
 (* GROUP BY / HAVING: group rows (key columns + `*` holding the members) *)
 Theorem C12_group_by_clean : forall (E : env stmt) s rows out,
   forallb name_ok (s_group s) = true -> Forall clean rows ->
@@ -251,6 +294,34 @@ Proof.
   exact (C12_no_navigation_key c12_call 40 false doc q3 rows3 c12_call_ok
            (proj1 (cleanb_spec doc) (proj1 ex_q1)) Hq Hr).
 Qed.
+
+(* (b) a value tuple as a value: a tuple nested in a tuple holding an arithmetic member and a string literal (then
+   a column, NULL, arithmetic over a missing column, a subquery); the stored value is the array of unwrapped
+   members.  The same query on the real engine (commit 055c082) returns these rows. *)
+Example C12_example_tuple :
+  query_ok q4 = true /\ api_run c12_call exec_join 40 false doc q4 = Ok rows4 /\ Forall clean rows4.
+Proof.
+  destruct ex_q4 as [Hq Hr]. repeat split; try assumption.
+  exact (C12_no_navigation_key c12_call 40 false doc q4 rows4 c12_call_ok
+           (proj1 (cleanb_spec doc) (proj1 ex_q1)) Hq Hr).
+Qed.
+
+(* the same at the level of Expr / ValueOf: ((a + 1, 'lit'), b) on the row {a: 1, b: "x"} *)
+Example C12_example_tuple_value :
+  ex_tuple_expr = ETuple [ETuple [EBin BAdd (ECol ["a"%string]) (ENum 1); EStr "lit"]; ECol ["b"%string]] /\
+  eval ex_env ex_tuple_row ex_tuple_expr = Ok ex_tuple_result /\
+  ex_tuple_result = RTuple [RTuple [RNumPtr (Some 2%float); RNeutral "lit"]; RVal (VStr "x")] /\
+  value_of ex_tuple_row ex_tuple_result = Ok ex_tuple_value /\
+  ex_tuple_value = VArr [VArr [VNum 2; VStr "lit"]; VStr "x"].
+Proof. repeat split; apply ex_tuple_raw. Qed.
+
+(* members the real Unwrapped leaves as they are (its default branch) are OUTSIDE the model, not repaired:
+   the Ommit marker of a SPIN call and the slot of an ASYNC call stay members of the array *)
+Example C12_example_tuple_unresolved :
+  api_run c12_call exec_join 40 false doc q_tuple_spin = OutOfModel /\
+  api_run c12_call exec_join 40 false doc q_tuple_async = OutOfModel /\
+  value_of [] (RTuple [ROmit; RVal (VNum 1)]) = OutOfModel.
+Proof. exact ex_tuple_unresolved. Qed.
 
 (* each exclusion of [query_ok] is needed: the excluded query returns a row with a `<-` key in the model *)
 Example C12_exclusions_needed :
